@@ -591,7 +591,7 @@ def roundtrip(repo):
 
 
 def contracts(repo):
-    return [parse_payload_spec()] + dump_specs() + list_specs() + dict_specs() + dump_dispatch_specs() + [parse_spec(), process_spec(), Custom('stream_state', stream_state, replay=replay_stream_state, targets=[('server/tnet.py', 'tnet_from')], note='AST-decided: no default argument of tnet_from is an object built once'), Custom('roundtrip', roundtrip, note='composition lemmas')]
+    return [parse_payload_spec()] + dump_specs() + list_specs() + dict_specs() + dump_dispatch_specs() + [parse_spec(), process_spec(), __import__('contracts.C02', fromlist=['recv_spec']).recv_spec(), Custom('stream_state', stream_state, replay=replay_stream_state, targets=[('server/tnet.py', 'tnet_from')], note='AST-decided: no default argument of tnet_from is an object built once'), Custom('roundtrip', roundtrip, note='composition lemmas')]
 
 
 LEVEL_TEXT = ('Deductive proof on the real server/tnetstrings.py. Scalars: parse_payload extracts exactly payload, type byte and rest from '
